@@ -146,7 +146,9 @@ var numVals = []float64{0, 1, -1, 2, 3, 0.5, -0.5, 1.5, 10, 42, 255, 256, 1e-9, 
 
 func (g *Gen) NumVal() float64 {
 	if g.p(0.05) {
-		return []float64{math.Inf(1), math.Inf(-1), math.NaN()}[g.pick(3)]
+		// NaN is left to the dedicated pools: a container holding NaN equals
+		// itself by identity but not element-wise (recorded finding D26)
+		return []float64{math.Inf(1), math.Inf(-1)}[g.pick(2)]
 	}
 	if g.p(0.2) {
 		return float64(g.pick(2000)-1000) / float64(1+g.pick(8))
